@@ -14,6 +14,7 @@ from . import core
 from .core import SN, SB
 
 REPO = os.environ.get('REPO_ROOT', '/repo')
+builtins_abs = abs
 MODS = ['angle_tools', 'flags', 'exceptions', 'fits_tools', 'wcs_helpers', 'models', 'catalogs', 'regions',
         'fitting', 'cluster', 'BANE', 'MIMAS', 'AeRes', 'source_finder', 'msq2']
 
@@ -326,6 +327,18 @@ class NPProxy:
             return self._argext(a, lambda v, b: v < b)
         return real_np.nanargmin(a, *args, **kw)
     argmin = nanargmin
+
+    def isclose(self, a, b, rtol=1e-05, atol=1e-08, equal_nan=False):
+        if _has_sym(a) or _has_sym(b):
+            # numpy's definition: |a - b| <= atol + rtol * |b|
+            a2, b2 = real_np.broadcast_arrays(real_np.asarray(a, dtype=object), real_np.asarray(b, dtype=object))
+            out = real_np.empty(a2.shape, dtype=object)
+            for idx in real_np.ndindex(a2.shape):
+                x, y = a2[idx], b2[idx]
+                d = x - y
+                out[idx] = (abs(d) if isinstance(d, SN) else builtins_abs(d)) <= (abs(y) * rtol + atol)
+            return out if out.shape else out[()]
+        return real_np.isclose(a, b, rtol=rtol, atol=atol, equal_nan=equal_nan)
 
     def clip(self, a, lo, hi):
         if _has_sym(a) or _has_sym(lo) or _has_sym(hi):
